@@ -246,3 +246,32 @@ Print Assumptions C02_glynn_plain_eq_perm_le5_bounded.
 Example C02_glynn_example :
   square 3 [[3; 2; 1]; [5; 4; 1]; [4; 3; 2]] /\ fast_glynn_perm [[3; 2; 1]; [5; 4; 1]; [4; 3; 2]] = Some 92.
 Proof. split; [split; [reflexivity | repeat constructor] | vm_compute; reflexivity]. Qed.
+
+(* ================================================================== *)
+(* 5. Positive probability = lying on a perfect matching (all sizes)      *)
+From Inf Require Import proofs.PermMatchP.
+
+(* for non-negative weights the permanent is positive exactly when a perfect matching exists *)
+Theorem C02_perm_pos_iff_matching : forall n M,
+  nonneg n M -> (0 < perm n M <-> exists sg, fmatching n M sg).
+Proof. exact perm_pos_iff_matching. Qed.
+Print Assumptions C02_perm_pos_iff_matching.
+
+(* hence a (path, ensemble) pair has positive swap probability exactly when it lies on a perfect
+   matching of the weight matrix - the meaning of the certificates that property C05's model checks *)
+Theorem C02_Pspec_pos_iff_on_matching : forall n M i j,
+  nonneg (S n) M -> 0 < perm (S n) M -> (i <= n)%nat -> (j <= n)%nat ->
+  (0 < Pspec (S n) M i j <-> 0 < M i j /\ exists sg, fmatching n (minor i j M) sg).
+Proof. exact Pspec_pos_iff_on_matching. Qed.
+Print Assumptions C02_Pspec_pos_iff_on_matching.
+
+Example C02_matching_example :
+  fmatching 3 (of_lists [[1; 0; 0]; [0; 2; 3]; [0; 5; 0]]) (fun i => match i with 0 => 0 | 1 => 2 | _ => 1 end)%nat
+  /\ 0 < perm 3 (of_lists [[1; 0; 0]; [0; 2; 3]; [0; 5; 0]]).
+Proof.
+  split.
+  - split.
+    + intros [|[|[|i]]] Hi; try lia; split; try lia; reflexivity.
+    + intros [|[|[|i]]] [|[|[|i']]] Hi Hi' E; try lia; try discriminate; reflexivity.
+  - reflexivity.
+Qed.
